@@ -110,6 +110,9 @@ func GenSpec(r *hx.Rand, blocks int) *Spec {
 	if r.Chance(1, 4) {
 		// PoS from genesis: every fork at 0
 		*s = Spec{Seed: s.Seed, Blocks: blocks, NAuth: r.Range(1, 7), PoS: true}
+		if r.Bool() {
+			s.MBP = uint64(s.NAuth) // the leader group is full: a queued validation enters only when a member exits
+		}
 	}
 	switch r.Intn(4) {
 	case 0:
@@ -195,7 +198,7 @@ func Configure() {
 	// their slots, exits) really changes the leader group inside a 24-block chain
 	thor.SetConfig(thor.Config{BlockInterval: Interval, EpochLength: 6, HayabusaTP: &zero,
 		ValidatorEvictionThreshold: 4, EvictionCheckInterval: 6,
-		LowStakingPeriod: 6, MediumStakingPeriod: 12, HighStakingPeriod: 12, CooldownPeriod: 6})
+		LowStakingPeriod: 6, MediumStakingPeriod: 12, HighStakingPeriod: 6, CooldownPeriod: 6})
 }
 
 func bigE18(n uint64) *big.Int { return new(big.Int).Mul(new(big.Int).SetUint64(n), big.NewInt(1e18)) }
@@ -801,13 +804,58 @@ func (c *Chain) stakerTxs(num uint32) []Cand {
 		}
 		return c.MkTx(from, []*tx.Clause{cl}, num, TxOpt{Gas: 1_500_000, Typed: num >= c.Fork.GALACTICA && r.Bool()})
 	}
+	const quantum = 5_000_000 // stake moves in equal amounts, so that changes of different validators can offset each other
+	type vinfo struct {
+		i      int
+		locked uint64
+		spare  uint64
+	}
+	var known []vinfo
+	for i := range c.Masters {
+		if v, err := stk.GetValidation(c.Masters[i].Addr); err == nil && v != nil {
+			sp := uint64(0)
+			if v.LockedVET > 25_000_000+v.PendingUnlockVET {
+				sp = v.LockedVET - 25_000_000 - v.PendingUnlockVET
+			}
+			known = append(known, vinfo{i, v.LockedVET, sp})
+		}
+	}
+	// offsetting stake changes in the same block (hence the same period end): +X on one validator, -X on another — the
+	// group's size, total stake and total weight stay what they were while individual weights change
+	if len(known) >= 2 && r.Chance(1, 2) {
+		a := known[r.Intn(len(known))]
+		var rich []vinfo
+		for _, k := range known {
+			if k.spare >= quantum && k.i != a.i {
+				rich = append(rich, k)
+			}
+		}
+		out = append(out, Cand{call(c.Endors[a.i], "staker.increaseStake", bigE18(quantum), c.Masters[a.i].Addr), "staker-increase-stake"})
+		if len(rich) > 0 {
+			b := rich[r.Intn(len(rich))]
+			out = append(out, Cand{call(c.Endors[b.i], "staker.decreaseStake", nil, c.Masters[b.i].Addr, bigE18(quantum)), "staker-decrease-offsetting"})
+		}
+	}
+	// an outsider queues a validation of exactly the minimum stake (what the genesis validators hold); when the group is
+	// full it is activated in the transition in which a member exits: membership changes, totals do not
+	if active, _ := stk.IsPoSActive(); active {
+		for k := range c.Spare {
+			if v, err := stk.GetValidation(c.Spare[k].Addr); err == nil && v == nil && r.Chance(1, 3) {
+				out = append(out, Cand{call(c.Spare[k], "staker.addValidation", bigE18(25_000_000), c.Spare[k].Addr, thor.LowStakingPeriod()), "staker-add-outsider"})
+			}
+		}
+		if q, err := stk.QueuedGroupSize(); err == nil && q > 0 && len(known) > 1 && r.Chance(1, 4) {
+			x := known[r.Intn(len(known))]
+			out = append(out, Cand{call(c.Endors[x.i], "staker.signalExit", nil, c.Masters[x.i].Addr), "staker-signal-exit"})
+		}
+	}
 	for i := range c.Masters {
 		v, err := stk.GetValidation(c.Masters[i].Addr)
 		known := err == nil && v != nil
 		switch {
 		case !known:
 			if r.Chance(1, 2) {
-				out = append(out, Cand{call(c.Endors[i], "staker.addValidation", bigE18(uint64(r.Range(25_000_000, 60_000_000))),
+				out = append(out, Cand{call(c.Endors[i], "staker.addValidation", bigE18(uint64(25_000_000+quantum*uint64(r.Intn(3)))),
 					c.Masters[i].Addr, thor.LowStakingPeriod()), "staker-add-validation"})
 			}
 		case r.Chance(1, 4):
@@ -816,10 +864,8 @@ func (c *Chain) stakerTxs(num uint32) []Cand {
 				b = thor.Address{}
 			}
 			out = append(out, Cand{call(c.Endors[i], "staker.setBeneficiary", nil, c.Masters[i].Addr, b), "staker-set-beneficiary"})
-		case r.Chance(1, 6):
-			out = append(out, Cand{call(c.Endors[i], "staker.increaseStake", bigE18(uint64(r.Range(1, 5_000_000))), c.Masters[i].Addr), "staker-increase-stake"})
-		case r.Chance(1, 10):
-			out = append(out, Cand{call(c.Endors[i], "staker.decreaseStake", nil, c.Masters[i].Addr, bigE18(uint64(r.Range(1, 1_000_000)))), "staker-decrease-stake"})
+		case r.Chance(1, 8):
+			out = append(out, Cand{call(c.Endors[i], "staker.increaseStake", bigE18(quantum), c.Masters[i].Addr), "staker-increase-stake"})
 		case r.Chance(1, 40):
 			out = append(out, Cand{call(c.Endors[i], "staker.signalExit", nil, c.Masters[i].Addr), "staker-signal-exit"})
 		}
